@@ -218,6 +218,12 @@ func historical(t *chainprop.Trans) bool {
 	if err != nil {
 		panic(err)
 	}
+	type heldView struct {
+		h  uint64
+		ro *appstate.AppState
+		fp string
+	}
+	var held []heldView
 	for _, op := range opsOf(t.NextAux) {
 		if op[0] == 'R' {
 			var h uint64
@@ -235,9 +241,18 @@ func historical(t *chainprop.Trans) bool {
 				return false
 			}
 		}
-		// the node's services (key pool, ceremony, RPC) constantly ask for the head's read-only view
+		// the node's services (key pool, ceremony, RPC) constantly ask for the head's read-only view - and keep
+		// using the one they got while the chain moves on: a view is a snapshot, it must go on showing its height
 		if ro, err := L.App.Readonly(L.Chain.Head.Height()); err == nil {
 			ro.State.GetBalance(world.A(world.X1))
+			held = append(held, heldView{L.Chain.Head.Height(), ro, viewFingerprint(ro)})
+		}
+	}
+	for _, hv := range held {
+		c.Count("held_views_rechecked", 1)
+		if got := viewFingerprint(hv.ro); got != hv.fp {
+			c.Violation("held-view-changes", fmt.Sprintf("a read-only view taken at head %d shows other values after the chain moved on to %d (a view must stay a snapshot of its height)", hv.h, L.Chain.Head.Height()), nil)
+			return false
 		}
 	}
 	for _, node := range []struct {
